@@ -58,6 +58,14 @@ func report(r *runner.Run, fl *failure, replay any, recheck func() bool) {
 	r.Violation(fl.Key, fl.Msg, replay, recheck)
 }
 
+// infraOnce reports an infrastructure problem once per class (not once per configuration).
+func infraOnce(r *runner.Run, class, format string, a ...any) {
+	if _, dup := reported.LoadOrStore("infra:"+class, true); dup {
+		return
+	}
+	r.Infra(format, a...)
+}
+
 // sampleBook keeps, per class, the example with the smallest enumeration index
 // (so the evidence samples do not depend on goroutine scheduling).
 type sampleBook struct {
@@ -300,13 +308,13 @@ func outbound(r *runner.Run, deadline time.Time, workers int, ties *tieBook) boo
 		nPerm := len(vars) / len(selections)
 		env, err := bootOut(u.Windows, u.Unload, worker, vars, true)
 		if err != nil {
-			r.Infra("outbound boot (%s unload=%d): %v", pattern(u.Windows), u.Unload, err)
+			infraOnce(r, "outbound-boot", "outbound boot (%s unload=%d): %v", pattern(u.Windows), u.Unload, err)
 			return
 		}
 		defer env.close()
 		// control: an unsigned target must get its request, otherwise "not sent" below would mean nothing
 		if got, err := env.deliver("/out/plain", targetOrigin+"/control", shape{Method: 1, Body: 1}, outRoutes[0].Expected, clocks[0].At); err != nil || len(got) != 1 {
-			r.Infra("unsigned control delivery not observed (%v, %d requests)", err, len(got))
+			infraOnce(r, "outbound-control", "unsigned control delivery not observed (%v, %d requests)", err, len(got))
 			return
 		}
 		first := make([]int8, len(clocks)*len(full)) // pick of the first secret_ref order, per selection
@@ -326,7 +334,7 @@ func outbound(r *runner.Run, deadline time.Time, workers int, ties *tieBook) boo
 					pick, tie, fl, infra := env.evalCase(vi, sh, clk)
 					evals++
 					if infra != nil {
-						r.Infra("outbound case: %v", infra)
+						infraOnce(r, "outbound-case", "outbound case: %v", infra)
 						return
 					}
 					if fl != nil {
@@ -382,7 +390,7 @@ func outbound(r *runner.Run, deadline time.Time, workers int, ties *tieBook) boo
 			r.Add(fmt.Sprintf("out_configs_shape_level_%d", level), 1)
 		}
 		if p := env.rec.problems(); len(p) > 0 {
-			r.Infra("recording transport: %v", p)
+			infraOnce(r, "recorder", "recording transport: %v", p)
 		}
 		r.Add("evaluations", evals)
 		r.Add("out_evaluations", evals)
@@ -491,7 +499,7 @@ func inbound(t *testing.T, r *runner.Run, deadline time.Time, workers int) bool 
 		cases := inboundCases(len(set), skew)
 		res, infra := runInboundSet(t, set, worker, cases)
 		if infra != nil {
-			r.Infra("inbound: %v", infra)
+			infraOnce(r, "inbound-run", "inbound: %v", infra)
 			return
 		}
 		var acc, rej int64
@@ -502,7 +510,7 @@ func inbound(t *testing.T, r *runner.Run, deadline time.Time, workers int) bool 
 				rej++
 			}
 			if x.Status != 202 && x.Status != 401 {
-				r.Infra("inbound: status %d (neither 202 nor 401) for set %s case %+v", x.Status, pattern(set), x.Case)
+				infraOnce(r, "inbound-status", "inbound: status %d (neither 202 nor 401) for set %s case %+v", x.Status, pattern(set), x.Case)
 				return
 			}
 			if fl := inFailure(set, x, insts); fl != nil {
@@ -557,7 +565,7 @@ func endToEnd(t *testing.T, r *runner.Run, deadline time.Time, workers int, ties
 		}
 		obs, infra := runE2E(t, set, worker, vars, clocks)
 		if infra != nil {
-			r.Infra("e2e (%s): %v", pattern(set), infra)
+			infraOnce(r, "e2e-run", "e2e (%s): %v", pattern(set), infra)
 			return
 		}
 		var pushes, silent int64
@@ -565,7 +573,7 @@ func endToEnd(t *testing.T, r *runner.Run, deadline time.Time, workers int, ties
 			spec := outSpec{Windows: set, Order: vars[o.Var].Order, Sel: vars[o.Var].Sel, Unload: -1}
 			pick, tie, missing, fl := judgeE2E(spec, o)
 			if missing != 0 {
-				r.Infra("e2e: %d push requests for the %d targets of %s although a version is selectable (%s clock=%s): the dispatcher did not reach every target, the end-to-end part cannot decide", len(o.Got), len(urlPaths), routeOf(o.Var, o.Route), spec, o.Clock.Label)
+				infraOnce(r, "e2e-missing-push", "e2e: %d push requests for the %d targets of %s although a version is selectable (%s clock=%s): the dispatcher did not reach every target, the end-to-end part cannot decide", len(o.Got), len(urlPaths), routeOf(o.Var, o.Route), spec, o.Clock.Label)
 				return
 			}
 			if fl != nil {
